@@ -10,7 +10,8 @@ CONSTANTS
   Offsets <- OffsetsC
   Splits <- SplitsC
   PrevOffsets = {0, 1, 2}
-  MaxCorrupt = 1
+  MaxCorrupt = 2
   ValueChoices <- RepValueChoices
   Bases <- RepBases
+  CorruptionChoices <- SampledCorruptions
 INVARIANTS Emit
